@@ -3,3 +3,4 @@ CHECK_DEADLOCK FALSE
 CONSTANTS
   NCases = 120
   Stride = 1
+  NGen = 12
